@@ -52,3 +52,10 @@ CHECKS["C10"] = dict(
  text="All expressible triples: const declared at module level / in a function / in a block, class names, imported module names and exported members (const and non-const, scalar, list, function) x 16 write forms (=, typed =, += -= *= /= %=, ?= as statement / if / while condition, modify, typed modify, index =, index +=, loop-counter reuse, unpacking) x 9 write contexts (same scope, block, nested block, else, while body, from body, nested function, function in function, method) x 3 (quick) / 6 (thorough) constant types. The compiler must reject; if it accepts, the program is run and the constant observed. Every case has a positive control (same write, non-const) that must compile, so a compiler that rejects everything cannot pass.",
  note="A plain (non-modify) assignment inside a nested function declares a local by the language's rules; there acceptance is allowed provided the constant still holds its initializer.",
  design_ref="DESIGN.md section 4, C10")
+
+CHECKS["C01"] = dict(
+ category="model_checking",
+ technique="bounded exhaustive enumeration of control-flow skeletons (deviation-bounded parameters), each program = one reference-model trace replayed on the real CLI and compared line by line",
+ text="Every control-flow skeleton over {assignment, call, break, continue, return, assert / zero-divisor / index faults, if, if/else, else-if chains, while, from-loops with to/through, step, anonymous / fresh / colliding counter}: quick = all shapes of depth <=2 with default parameters (function, module-level and one-level-recursion variants), all spines of nesting depth <=5, every single parameter deviation at depth <=2 (6 conditions, 4 iteration counts, 4 bound pairs, to/through, 3 steps, 3 counter kinds, 3 fault kinds), all ordered pairs of depth-1 compounds in a function and in a loop body; thorough adds depth 3 and 4, double deviations, depth-3 single deviations and long (>=80 statement) sequences. Every block is framed by probes printing a site id and all live counters, so stdout is the path; each function is called with p = 0, 1, 2. Oracle: the reference interpreter's exact lines and success / failure point.",
+ note="The reference interpreter (mcheck/lang/refint.py) is the semantics; it is validated on the unchanged tree by this check itself (tens of thousands of agreeing traces). Any non-zero exit counts as the prescribed failure. Shapes follow rule 1 of DESIGN 3.4 (one arbitrary child per compound).",
+ design_ref="DESIGN.md section 4, C01")
